@@ -262,3 +262,43 @@ Example C02_dir_example :
   | _, _ => False
   end.
 Proof. vm_compute. auto. Qed.
+
+(* ---- directory handles on a directory that changes between the calls ---------------------------------------- *)
+(* The file system value may be a different one at EVERY call (entries created, removed, renamed meanwhile through
+   any other call), provided the handle's node is still a directory: the implementation equals dir_step_live given,
+   at each call, the listing the directory has THEN - a handle reads the listing of its first read after open or
+   Seek(0, io.SeekStart), and a rewind makes the next read list the directory again. *)
+Theorem C02_dir_live : forall v c s ch m f x op,
+  win v = false -> get (f_heap s) c = Some (NDir ch m) -> lrel c f x ->
+  dproj (snd (dimpl s v f op)) = snd (dir_step_live (map (@fi_name) (dir_infos (f_heap s) ch)) x op)
+  /\ lrel c (fst (dimpl s v f op)) (fst (dir_step_live (map (@fi_name) (dir_infos (f_heap s) ch)) x op)).
+Proof. intros. eapply dir_live_step; eassumption. Qed.
+
+Theorem C02_dir_live_history : forall v c steps f x,
+  win v = false -> lrel c f x -> Forall (fun st => dir_in c (fst st) <> None) steps ->
+  let specsteps := map (fun st => (match dir_in c (fst st) with Some l => l | None => [] end, snd st)) steps in
+  map dproj (snd (dlive_impl v f steps)) = snd (dlive_spec x specsteps)
+  /\ lrel c (fst (dlive_impl v f steps)) (fst (dlive_spec x specsteps)).
+Proof. intros. now apply dir_live_history. Qed.
+
+Theorem C02_dir_live_fresh : forall c f,
+  hd_name f <> [] -> hd_node f = Some c -> hd_dir_infos f = None -> lrel c f ldfd0.
+Proof. intros. now apply lrel_fresh. Qed.
+
+(* non-vacuity (and the history of seeded change C02-n3): read everything, an entry is created and one removed
+   through the path API, the handle is rewound and reads again - the new listing *)
+Definition w_dir2 : world :=
+  Eval vm_compute in
+    fst (wrun w_dir [CWriteFile 0 (P_d ++ [47; 119]%N) [] 420; CRemove 0 (P_d ++ [47; 120]%N)]).
+Example C02_dir_live_example :
+  match nth_error (w_handles w_dir) 0, nth_error (w_views w_dir) 0 with
+  | Some f, Some v =>
+      let steps := [(w_fs w_dir, DReadDir (-1)); (w_fs w_dir2, DReaddirnames 1); (w_fs w_dir2, DRewind);
+                    (w_fs w_dir2, DReadDir (-1)); (w_fs w_dir, DReadDir 1); (w_fs w_dir, DRewind); (w_fs w_dir, DReaddirnames 5)] in
+      map dproj (snd (dlive_impl v f steps))
+      = [D_Batch [[120]; [121]]%N None; D_Batch [] (Some X_EOF); D_Int 0; D_Batch [[119]; [121]]%N None;
+         D_Batch [] (Some X_EOF); D_Int 0; D_Batch [[120]; [121]]%N None]
+      /\ Forall (fun st => dir_in 4 (fst st) <> None) steps
+  | _, _ => False
+  end.
+Proof. vm_compute. split; [reflexivity|]. repeat constructor; discriminate. Qed.
